@@ -866,7 +866,7 @@ class Sim:
     """Source entity, destination entity, link, clock - for one process-local run.
 
     case keys: cfg, file (bytes | spec | None for metadata-only), faults, pacing, inject, dest_kind
-    ('file' | 'dir' | 'existing'), fs_rejects (write call indices), msgs (list of bytes),
+    ('file' | 'dir' | 'existing' | 'dir_existing'), fs_rejects (write call indices), msgs (list of bytes),
     tick_mode ('after' | 'exact').
     With `session` the handlers of an earlier transfer are reused (MIB-level configuration is the
     session's; request-level mode/closure, file, faults and pacing are this case's).
@@ -909,10 +909,12 @@ class Sim:
             src_vfs.mkdirs(self.sdir)
             dst_vfs.mkdirs(self.ddir)
             self.src_path = self.sdir / "src.bin"
-            if dk == "dir":
+            if dk in ("dir", "dir_existing"):
                 dst_vfs.mkdirs(self.ddir / "sub")
                 self.dest_arg = self.ddir / "sub"
                 self.dest_path = self.ddir / "sub" / "src.bin"
+                if dk == "dir_existing":
+                    dst_vfs.put(self.dest_path, b"OLD-CONTENT-IN-DIRECTORY-" * 200)
             else:
                 self.dest_arg = self.ddir / "dst.bin"
                 self.dest_path = self.dest_arg
@@ -928,10 +930,13 @@ class Sim:
                     shutil.rmtree(d)
                 d.mkdir()
             self.src_path = self.sdir / "src.bin"
-            if dk == "dir":
+            if dk in ("dir", "dir_existing"):
                 (self.ddir / "sub").mkdir()
                 self.dest_arg = self.ddir / "sub"
                 self.dest_path = self.ddir / "sub" / "src.bin"
+                if dk == "dir_existing":
+                    # the directory already holds a (longer) file with the source's base name
+                    self.dest_path.write_bytes(b"OLD-CONTENT-IN-DIRECTORY-" * 200)
             else:
                 self.dest_arg = self.ddir / "dst.bin"
                 self.dest_path = self.dest_arg
